@@ -66,7 +66,7 @@ static std::string refusal_class(const std::string &what)
     return "refused:" + what.substr(0, 40);
 }
 
-static void dummy_indices(const B &e, std::multiset<std::pair<std::string, size_t>> &out, std::set<const Basic *> &seen)
+static void dummy_indices(const B &e, std::set<std::pair<std::string, size_t>> &out, std::set<const Basic *> &seen)
 {
     if (!seen.insert(e.get()).second)
         return;
@@ -123,7 +123,7 @@ static void compare(const B &s, const B &l, Verdict &v)
             return;
         }
     }
-    std::multiset<std::pair<std::string, size_t>> ds, dl;
+    std::set<std::pair<std::string, size_t>> ds, dl;
     std::set<const Basic *> seen1, seen2;
     dummy_indices(s, ds, seen1);
     dummy_indices(l, dl, seen2);
@@ -249,7 +249,7 @@ static void judge(const B &s, const std::string &recipe, Ctx &c)
     if (!v.fail.empty()) {
         Verdict vc = v;
         B cul = locate(s, vc);
-        std::string sig = vc.fail + ":" + node_class(*cul) + child_classes(cul);
+        std::string sig = vc.fail + ":" + node_class(*cul);
         c.outcome("fail:" + cls + ":" + vc.fail);
         c.violation(sig, "state " + recipe + " = " + sstr(s) + " [" + key(*s) + "]: " + v.fail + ": " + v.detail
                              + (cul.get() != s.get() ? " ; smallest failing sub-expression " + sstr(cul) + " [" + key(*cul)
@@ -603,7 +603,7 @@ int main(int argc, char **argv)
                 if (!ve.fail.empty()) {
                     Verdict vv = ve;
                     B cul = locate(e, vv);
-                    c.violation(vv.fail + ":" + node_class(*cul) + child_classes(cul),
+                    c.violation(vv.fail + ":" + node_class(*cul),
                                 mx.desc(i) + ": DenseMatrix::loads threw " + x.what() + "; entry " + sstr(e) + " fails alone: " + vv.detail);
                     return;
                 }
@@ -628,7 +628,7 @@ int main(int argc, char **argv)
                 if (!ve.fail.empty()) {
                     Verdict vv = ve;
                     B cul = locate(M.m_[k], vv);
-                    c.violation(vv.fail + ":" + node_class(*cul) + child_classes(cul),
+                    c.violation(vv.fail + ":" + node_class(*cul),
                                 mx.desc(i) + ": entry " + std::to_string(k) + ": " + v.fail + ": " + v.detail);
                 } else
                     c.violation("matrix:entry-" + v.fail, mx.desc(i) + ": entry " + std::to_string(k) + ": " + v.fail + ": " + v.detail);
